@@ -9,6 +9,12 @@ EXTENDS MemoryMap, TLC, Json
 CONSTANTS MaxItems, Export, RootAls, Rich    \* Rich: full numeric product on the root; lean: deeper trees
 VARIABLES key, st, lastin
 vars == <<key, st, lastin>>
+\* the abstract allocator (MemoryMapAbs.tla), one instance per map of this universe
+Abs1 == INSTANCE MemoryMapAbs WITH Space <- 8, ritems <- AbsProj(st.maps[1]), cur <- st.maps[1].cursor, frz <- (st.maps[1].frozen = 1)
+Abs2 == INSTANCE MemoryMapAbs WITH Space <- 4, ritems <- AbsProj(st.maps[2]), cur <- st.maps[2].cursor, frz <- (st.maps[2].frozen = 1)
+Abs3 == INSTANCE MemoryMapAbs WITH Space <- 2, ritems <- AbsProj(st.maps[3]), cur <- st.maps[3].cursor, frz <- (st.maps[3].frozen = 1)
+AbsInitOK == Abs1!AInit /\ Abs2!AInit /\ Abs3!AInit            \* checked in the initial states (see Init)
+AbsSafe == Abs1!Safe /\ Abs2!Safe /\ Abs3!Safe                 \* = what TLAPS derives; TLC agrees on this universe
 
 Prelude(al) == << [call |-> "new", aw |-> 3, dw |-> 16, al |-> al],
                   [call |-> "new", aw |-> 2, dw |-> 16, al |-> 0],
@@ -67,6 +73,7 @@ Outcomes(maps, c) ==
 
 NItems(s) == Cardinality(s.maps[1].items) + Cardinality(s.maps[2].items) + Cardinality(s.maps[3].items)
 Init == /\ key \in RootAls /\ st = S0(key) /\ lastin = <<>>
+        /\ Assert(AbsInitOK, "AbsInitOK")
         /\ IF Export THEN PrintT(<<"CFG", ToJson([key |-> key, cfg |-> [prelude |-> Prelude(key)], s0 |-> st])>>) ELSE TRUE
 Next == \E c0 \in Calls : \E c \in Outcomes(st.maps, c0) :
           /\ InDomain(st.maps, c0)
@@ -124,6 +131,9 @@ Props ==
               \/ ResStop(maps[c.m], c) > Pow2(maps[c.m].aw)
               \/ Overlaps(maps[c.m], ResStart(maps[c.m], c), ResStop(maps[c.m], c))
               \/ (c.addr >= 0 /\ c.addr % Pow2(ResEff(maps[c.m], c)) # 0), <<"LegalNameNeverRefused", c>>)
+  \* ---- every step of every map is a step of the abstract allocator that TLAPS proves safe for all sizes
+  /\ Assert(Abs1!ANextObs /\ Abs2!ANextObs /\ Abs3!ANextObs, <<"AbsRefines", c>>)
+  /\ Assert(AbsStepOK(st, st'), <<"AbsStepOK (the form used in trace validation)", c>>)
   /\ IF Export THEN PrintT(<<"EDGE", ToJson([key |-> key, s |-> st, i |-> c, t |-> st'])>>) ELSE TRUE
 \* consequence: reported paths are pairwise distinct (and prefix-free)
 PathsDistinct == \A m \in Maps : LET rs == AllRes(st.maps, m) IN
